@@ -71,6 +71,29 @@ def recursive_options(ctx, rule):
     ctx.floor(f"{rule}-rec", n_rec, 3, "recursive build calls")
 
 
+
+def kwarg_x(m, f, call, name, pos=None):
+    """kwarg(), also through `**{...}`, `**local` (a dict literal) and `**self.helper()` (a helper that returns a dict literal)."""
+    v = kwarg(call, name, pos)
+    if v is not None:
+        return v
+    for k in call.keywords:
+        if k.arg is not None:
+            continue
+        d = k.value
+        if isinstance(d, ast.Name):
+            from ..astx import resolve_local
+            d = resolve_local(f.node, d)
+        if isinstance(d, ast.Call) and self_attr(d.func) and f.cls and not d.args:
+            h = m.method(f.cls, self_attr(d.func))
+            rets = [r for r in walk_no_nested(h.node) if isinstance(r, ast.Return) and r.value is not None] if h is not None else []
+            d = rets[0].value if len(rets) == 1 else None
+        if isinstance(d, ast.Dict):
+            for kk, vv in zip(d.keys, d.values):
+                if isinstance(kk, ast.Constant) and kk.value == name:
+                    return vv
+    return None
+
 def r10a(ctx):
     m = ctx.model
     ctx.rule("R10a", "option plumbing: every document list constructed by a loader/builder receives allow_list_edits and "
@@ -94,7 +117,7 @@ def r10a(ctx):
                 short = cq.rsplit(".", 1)[-1]
                 missing = []
                 for i, opt in enumerate(LIST_OPTS):
-                    v = kwarg(c, opt, i + 1)
+                    v = kwarg_x(m, f, c, opt, i + 1)
                     if v is None:
                         missing.append(f"{opt} not passed")
                     elif not (opts_expr(v, opt) or (isinstance(v, ast.Name) and v.id == opt and opt in params)):
@@ -180,7 +203,7 @@ def r10a(ctx):
             short = cq.rsplit(".", 1)[-1]
             missing = []
             for i, opt in enumerate(LIST_OPTS):
-                v = kwarg(c, opt, i + 1)
+                v = kwarg_x(m, f, c, opt, i + 1)
                 if v is None:
                     missing.append(f"{opt} not passed")
                 elif not (opts_expr(v, opt) or (isinstance(v, ast.Name) and v.id == opt and opt in params)
